@@ -192,7 +192,7 @@ func TestVerif_C14(t *testing.T) {
 	}
 
 	// ---- 2. the matrix
-	sizesCoq := []int{0, 1, 2, 7, 65, 300}
+	sizesCoq := []int{0, 1, 2, 7, 24, 65, 300}
 	sizesGo := []int{4096, 20000}
 	coqFaultsPerCfg := 5
 	if thorough {
@@ -246,6 +246,24 @@ func TestVerif_C14(t *testing.T) {
 	}
 	doCfg := func(size, nf, fo int, useFnv bool, v variant, toCoq bool) {
 		pid += 2
+		// the Coq case file is kept small in the quick tier (about 10 000 frames): the Go oracle sees every
+		// configuration and fault, the model a sample of them weighted towards small frame counts
+		coqFaults := coqFaultsPerCfg
+		if toCoq && !thorough {
+			switch {
+			case size > 24: // the checksums over a few hundred bytes need only a handful of model cases
+				toCoq = (nf == 1 && fo == 1) || (nf == 2 && fo == 1) || (nf == 3 && fo == 2) || (nf == 10 && (fo == 5 || fo == 2)) || (nf == 60 && fo == 10 && !useFnv)
+				coqFaults = 2
+			case nf >= 60:
+				toCoq = (size >= 7 && !useFnv) || (fo == 5 && size == 2)
+				coqFaults = 1
+			case nf > 24:
+				toCoq = false
+			case nf >= 10:
+				toCoq = size >= 7 || !useFnv
+				coqFaults = 3
+			}
+		}
 		var d []byte
 		switch rng.Intn(5) {
 		case 0:
@@ -270,15 +288,15 @@ func TestVerif_C14(t *testing.T) {
 		other.Build(rng)
 		inScope := !v.noHash && !v.noTotal
 		cfgKey := fmt.Sprintf("size=%d,frames=%d,fanout=%d,fnv=%v,nohash=%v,nototal=%v,randomsplit=%v", size, nf, fo, useFnv, v.noHash, v.noTotal, random)
-		rep.Count(fmt.Sprintf("frames=%d", nf))
+		rep.Count("frames=" + vc14Bucket(nf, []int{1, 2, 3, 10, 59, 60}))
 		rep.Count(fmt.Sprintf("fanout=%d", fo))
-		rep.Count(fmt.Sprintf("size=%d", size))
+		rep.Count("size=" + vc14Bucket(size, []int{0, 1, 2, 100, 1000, 65536, 204800}))
 		if useFnv {
 			rep.Count("checksum=fnv1a")
 		} else {
 			rep.Count("checksum=crc64")
 		}
-		if toCoq && !v.noTotal {
+		if toCoq && !v.noTotal && (size <= 24 || thorough) { // the layout does not depend on the payload bytes
 			cases.Add(c14gen.CoqLayoutCase(p))
 			rep.Count("coq-layout-cases")
 		}
@@ -305,7 +323,7 @@ func TestVerif_C14(t *testing.T) {
 		}
 		coqPick := map[int]bool{}
 		if toCoq {
-			for i := 0; i < coqFaultsPerCfg*3 && len(all) > 0; i++ {
+			for i := 0; i < coqFaults*3 && len(all) > 0; i++ {
 				coqPick[rng.Intn(len(all))] = true
 			}
 		}
@@ -327,8 +345,8 @@ func TestVerif_C14(t *testing.T) {
 			if s.Cyclic {
 				rep.Count("fault=cyclic-link")
 			}
-			c := toCoq && coqPick[idx] && picked < coqFaultsPerCfg
-			if c && v.noTotal && (f.kind == "dup-link" || f.kind == "dup-store") {
+			c := toCoq && coqPick[idx] && picked < coqFaults
+			if c && v.noTotal && (f.kind == "dup-link" || f.kind == "dup-store" || f.kind == "dup-extra") {
 				c = false // without a frame count the repair changes what a repeated CID yields: outside the property's scope
 			}
 			if c {
@@ -372,7 +390,7 @@ func TestVerif_C14(t *testing.T) {
 		if thorough && i%10 == 0 {
 			size = rng.Intn(204801)
 		}
-		doCfg(size, 1+rng.Intn(60), 1+rng.Intn(10), rng.Bool(), variant{}, size <= 200 && i%3 == 0)
+		doCfg(size, 1+rng.Intn(60), 1+rng.Intn(10), rng.Bool(), variant{}, size <= 300 && i%4 == 0)
 	}
 
 	if err := cases.Write(); err != nil {
@@ -382,6 +400,24 @@ func TestVerif_C14(t *testing.T) {
 	if err := rep.Write(); err != nil {
 		t.Fatal(err)
 	}
+}
+
+// vc14Bucket names the bucket of v given ascending upper bounds.
+func vc14Bucket(v int, ups []int) string {
+	lo := 0
+	for _, u := range ups {
+		if v <= u {
+			if lo == u || lo > u {
+				return fmt.Sprint(u)
+			}
+			if lo+1 == u || v == u && lo == u {
+				return fmt.Sprint(u)
+			}
+			return fmt.Sprintf("%d..%d", lo+1, u)
+		}
+		lo = u
+	}
+	return fmt.Sprintf(">%d", lo)
 }
 
 func vc14min(a, b int) int {
